@@ -22,3 +22,4 @@ import PyodaProofs.C07b
 #print axioms Pyoda.C07.iso_time_format_injective
 #print axioms Pyoda.C07.iso_date_format_injective
 #print axioms Pyoda.C07.iso_time_general_reformat
+#print axioms Pyoda.C07.iso_time_general_parsed_chars
